@@ -22,7 +22,8 @@ EXTENDS Control, Json
 CONSTANTS MaxNodes,     \* nodes of the first clause body
           MaxNodes2,    \* nodes of the second clause body (0: single clause)
           MaxSol,       \* leaf solution counts 0..MaxSol
-          Shard, Shards \* this run handles instances whose hash mod Shards = Shard
+          Shard, Shards, \* this run handles instances whose hash mod Shards = Shard
+          EmitIR        \* also print the intermediate code of the model
 LN == {1, 2}
 CutIf(n) == [b |-> "cutif", label |-> n]
 
@@ -116,5 +117,7 @@ Mine == Shards = 1 \/ (Len(ToString(<<body, body2>>)) + cnt[1] * 3 + cnt[2] * 7)
 EmitInstance ==
   Mine => LET ref == SemPred(Clauses, 1, Cnt) IN
           PrintT("@@" \o ToJson([clauses |-> Clauses, cnt |-> <<cnt[1], cnt[2]>>, nocc |-> NOcc,
-                                 sem |-> [i \in DOMAIN ref |-> Tuple(ref[i], NOcc)]]))
+                                 sem |-> [i \in DOMAIN ref |-> Tuple(ref[i], NOcc)],
+                                 \* the IR this model says compile_body produces (compared with the real one: drift report)
+                                 ir |-> IF EmitIR THEN CompClauses(Clauses, 1, 0) ELSE <<>>]))
 =============================================================================
